@@ -293,7 +293,12 @@ class Exec:
                 return K_(acc)
             return VBool(z3.And(*ts) if isinstance(e.op, ast.And) else z3.Or(*ts))
     def e_IfExp(self, e, st):
-        c = self.truthy(st, self.ev(e.test, st)); a, b = lift(self.ev(e.body, st)), lift(self.ev(e.orelse, st))
+        c = self.truthy(st, self.ev(e.test, st))
+        # only the selected operand is evaluated: exceptions an operand may raise are guarded by the condition
+        n0 = len(self.pending_raise); a = lift(self.ev(e.body, st))
+        self.pending_raise[n0:] = [(z3.And(c, g), x) for g, x in self.pending_raise[n0:]]
+        n1 = len(self.pending_raise); b = lift(self.ev(e.orelse, st))
+        self.pending_raise[n1:] = [(z3.And(z3.Not(c), g), x) for g, x in self.pending_raise[n1:]]
         if isinstance(a, VOpaque) or isinstance(b, VOpaque): return OPAQUE
         if type(a) is type(b) and isinstance(a, (VInt, VBool, VStr)): return type(a)(z3.If(c, a.t, b.t))
         if isinstance(b, VNone) and isinstance(a, (VInt, VStr)): return VOpt(z3.Not(c), a)
